@@ -35,6 +35,7 @@ def run(ctx):
     checks = []
     channel_stream(ctx, cirq, checks, n)
     circuit_stream(ctx, cirq, checks, 90 * n)
+    channel_pair_grid(ctx, cirq, checks)
     noise_stream(ctx, cirq, checks, 40 * n)
     mux_noise_stream(ctx, cirq, checks, 40 * n)
     evaluate(ctx, checks)
@@ -213,6 +214,15 @@ def noise_stream(ctx, cirq, checks, n):
         # sprinkle a virtual moment
         if rng.random() < 0.4:
             c.insert(rng.randint(0, len(c)), cirq.Moment(cirq.Z(qs[0]).with_tags(cirq.VirtualTag())))
+        # ... and moments that MIX a virtual operation with physical ones (only a wholly virtual moment is skipped by the noise model)
+        if i % 2 == 0:
+            free = [(mi, q) for mi, m in enumerate(c) for q in qs if not m.operates_on([q]) and len(m) >= 1
+                    and not any(cirq.is_measurement(o) for o in m)]
+            if free:
+                mi, q = rng.choice(free)
+                c[mi] = c[mi].with_operation(rng.choice([cirq.Z, cirq.X, cirq.S])(q).with_tags(cirq.VirtualTag()))
+            else:
+                c.insert(0, cirq.Moment(cirq.H(qs[0]), *([cirq.Z(qs[1]).with_tags(cirq.VirtualTag())] if len(qs) > 1 else [])))
         desc = str(c).replace('\n', ' | ')[:300]
         noisy = c.with_noise(nm)
         # structure vs the Gallina model of noisy_moments
@@ -264,6 +274,41 @@ def noise_stream(ctx, cirq, checks, n):
         checks.append(('noise-model:simulate', f'fcl_close {TOL} (dexec_rho FOps {gates.nlist([2] * len(qs))} {mops} {gates.fvec(np.eye(dim)[0])}) {gates.fvec(rho.reshape(-1))}',
                        f'DensityMatrixSimulator(noise={noise_gate!r}) differs from simulating the circuit the noise model produces on {desc}',
                        dict(signature=sig, circuit=repr(c), noise=repr(noise_gate), prepend=prepend)))
+
+
+def channel_pair_grid(ctx, cirq, checks):
+    """Every ordered pair of library channels at special (0, 1) and generic parameters applied one after the other to one qubit of an
+    entangled pair, through DensityMatrixSimulator with and without split_untangled_states (fixed for every seed): in-place fast paths
+    of one channel must not disturb the buffers the next one uses."""
+    chans = [cirq.phase_damp(0.0), cirq.phase_damp(1.0), cirq.phase_damp(0.25), cirq.amplitude_damp(0.0), cirq.amplitude_damp(1.0),
+             cirq.amplitude_damp(0.3), cirq.bit_flip(0.0), cirq.bit_flip(0.2), cirq.phase_flip(0.0), cirq.depolarize(0.0), cirq.depolarize(0.1),
+             cirq.generalized_amplitude_damp(0.0, 0.0), cirq.generalized_amplitude_damp(0.3, 0.4), cirq.ResetChannel(), cirq.Z, cirq.H]
+    q0, q1 = cirq.LineQubit.range(2)
+    qs = [q0, q1]
+    k = 0
+    for a in chans:
+        for b in chans:
+            if cirq.has_unitary(a) and cirq.has_unitary(b):
+                continue
+            k += 1
+            if ctx.tier == 'quick' and k % 2 and not (isinstance(a, type(cirq.phase_damp(0.0))) or isinstance(b, cirq.ResetChannel)):
+                continue
+            c = cirq.Circuit(cirq.H(q0), cirq.CNOT(q0, q1), cirq.X(q1) ** 0.3, a.on(q0), b.on(q0), b.on(q1) if k % 3 == 0 else cirq.I(q1))
+            try:
+                mops, meas, _ = opsem.circuit_to_mops(cirq, c, qs)
+            except opsem.Unsupported:
+                continue
+            split = bool(k % 2)
+            desc = f'{a!r} then {b!r} (split_untangled_states={split})'
+            try:
+                rho = np.asarray(cirq.DensityMatrixSimulator(dtype=np.complex128, split_untangled_states=split).simulate(c, qubit_order=qs).final_density_matrix)
+            except Exception as e:
+                ctx.violation('channel-pair:raises', f'DensityMatrixSimulator raised {type(e).__name__}: {e} on {desc}', dict(kind='channel-pair', circuit=repr(c)))
+                continue
+            ctx.count('channel-pair', [repr(a), repr(b), split], True, sample=dict(first=repr(a), second=repr(b), split=split))
+            checks.append(('channel-pair', f'fcl_close {TOL} (dexec_rho FOps {gates.nlist([2, 2])} {mops} {gates.fvec(np.eye(4)[0])}) {gates.fvec(rho.reshape(-1))}',
+                           f'DensityMatrixSimulator: {desc} on one qubit of an entangled pair differs from the channel semantics',
+                           dict(signature='channel-pair', circuit=repr(c), first=repr(a), second=repr(b), split=split)))
 
 
 def mux_noise_stream(ctx, cirq, checks, n):
